@@ -59,6 +59,9 @@ type World struct {
 	stuck  map[int]bool
 	blockH int64
 	disabledTok map[int]bool
+	// batches the external chain may still execute, as the protocol sees it (independent of the fxcore store):
+	// requested, not executed, not superseded by an executed higher-nonce batch of the SAME token, not timed out
+	liveBatch []liveBatch
 	// monitor tallies (independent of the model): per token
 	deposited, executed []*big.Int
 	netIn               map[[2]int]*big.Int // (token, chain) -> deposited - executed through that chain (incl. cancelled refunds etc. via in-flight)
@@ -290,6 +293,22 @@ func (w *World) bumpBlock() {
 	w.C.Ctx = w.C.Ctx.WithBlockHeight(w.blockH).WithBlockTime(w.C.Ctx.BlockTime().Add(lib.BlockStep))
 }
 
+type liveBatch struct {
+	C, T    int
+	Nonce   uint64
+	Timeout uint64
+}
+
+func (w *World) dropBatches(keep func(b liveBatch) bool) {
+	var out []liveBatch
+	for _, b := range w.liveBatch {
+		if keep(b) {
+			out = append(out, b)
+		}
+	}
+	w.liveBatch = out
+}
+
 // ---------------- claims ----------------
 
 func (w *World) extAddr(c int, a int) string {
@@ -306,6 +325,7 @@ func (w *World) observe(c int, h uint64, mk func(n uint64, h uint64) crosschaint
 	if x.Keeper.GetLastObservedEventNonce(w.C.Ctx) == n {
 		w.nonce[c] = n
 		w.height[c] = h
+		w.dropBatches(func(b liveBatch) bool { return b.C != c || b.Timeout >= h }) // timed out: legitimately cancelled
 		return n, true
 	}
 	w.stuck[c] = true
